@@ -2,7 +2,7 @@
    Gen/PreludeUnits.v) with its environment precomputed, and the table lemmas
    (finite, by vm_compute). *)
 From Coq Require Import List ZArith QArith Qcanon String Bool.
-From NV Require Export Qty.Model Qty.Exec Gen.PreludeUnits.
+From NV Require Export Qty.Model Qty.Assert Qty.Exec Gen.PreludeUnits.
 Import ListNotations.
 
 Definition P_env : env := Eval vm_compute in make_env prelude_tbl.
